@@ -143,6 +143,8 @@ def gen_config(rng, alpha_kinds=("fixed", "single"), allow_fail=True):
             market[a] = bars          # an asset without any bar has NO file (a header-only CSV is outside the properties)
     cfg["market"] = market
     cfg["assets"] = assets
+    # the library prints every event by default; a quarter of the configurations run with printing ON (output discarded)
+    cfg["printing"] = rng.random() < 0.25
     return cfg
 
 
@@ -215,10 +217,50 @@ class Outcome(object):
         self.extra = {}
 
 
+class _Null(object):
+    def write(self, _s):
+        return 0
+
+    def flush(self):
+        pass
+
+
+class quiet(object):
+    """Discard what the library prints while a configuration with printing ON runs; printing is OFF again afterwards."""
+    def __init__(self, c):
+        self.on = bool(c.get("printing"))
+
+    def __enter__(self):
+        import sys
+        self.saved = sys.stdout
+        if self.on:
+            sys.stdout = _Null()
+        return self
+
+    def __exit__(self, *a):
+        import sys
+        from qstrader import settings
+        sys.stdout = self.saved
+        settings.set_print_events(False)
+        return False
+
+
 def build_session(c, csv_dir, signals_factory=None, alpha_factory=None, data_sources=None):
+    """The real objects for configuration c (what the constructors print is discarded)."""
+    import sys
+    saved = sys.stdout
+    if c.get("printing"):
+        sys.stdout = _Null()
+    try:
+        return _build_session(c, csv_dir, signals_factory, alpha_factory, data_sources)
+    finally:
+        sys.stdout = saved
+
+
+def _build_session(c, csv_dir, signals_factory=None, alpha_factory=None, data_sources=None):
     """The real objects for configuration c.  Returns the BacktestTradingSession."""
     from qstrader import settings
-    settings.set_print_events(False)
+    settings.set_print_events(bool(c.get("printing")))
     from qstrader.alpha_model.fixed_signals import FixedSignalsAlphaModel
     from qstrader.alpha_model.single_signal import SingleSignalAlphaModel
     from qstrader.asset.equity import Equity
@@ -315,7 +357,8 @@ def run_real(c, rng=None, signals_factory=None, alpha_factory=None, csv_dir=None
                 return out
             sess.qts.portfolio_construction_model = _PcmProxy(sess.qts.portfolio_construction_model, out)
             try:
-                sess.run(results=False)
+                with quiet(c):
+                    sess.run(results=False)
             except Exception as e:
                 out.failure = (type(e).__name__, minutes(sess.broker.current_dt))
                 out.extra["message"] = str(e)[:300]
@@ -468,7 +511,8 @@ def record_session_trace(c, ident, rng=None):
             with rec.installed():
                 try:
                     sess = build_session(c, csv_dir)
-                    sess.run(results=False)
+                    with quiet(c):
+                        sess.run(results=False)
                 except Exception:
                     pass
         if rec.t0 is None:
